@@ -73,7 +73,7 @@ InitVars ==
   /\ sn = [e \in EP |-> NoSnap]
   /\ step = [ev |-> "none"]
   /\ newData = [e \in EP |-> <<>>]
-  /\ misc = [expectDrained |-> FALSE]
+  /\ misc = [expectDrained |-> FALSE, probe |-> [e \in EP |-> -1]]
   /\ viol = {}
 
 Init == l = 1 /\ InitVars /\ TLCSet(1, 0)
@@ -94,7 +94,7 @@ TrCfg ==
   /\ sn' = [e \in EP |-> NoSnap]
   /\ step' = [ev |-> "none"]
   /\ newData' = [e \in EP |-> <<>>]
-  /\ misc' = [expectDrained |-> FALSE]
+  /\ misc' = [expectDrained |-> FALSE, probe |-> [e \in EP |-> -1]]
   /\ viol' = {}
   /\ l' = l + 1
 
@@ -106,14 +106,28 @@ WriteViol(e) ==
   \cup {V("C18_TooLargeError", <<e.id, e.len, e.err>>) : x \in {1} \cap (IF e.len > Cfg(e.ep).maxmsg /\ ~e.ok /\ e.err # "toolarge" THEN {1} ELSE {})}
   \cup {V("C18_ShortCount", <<e.id, e.len, e.n>>) : x \in {1} \cap (IF e.ok /\ e.n # e.len THEN {1} ELSE {})}
 
+\* The call is logged before WriteSCTP runs (the writer goroutine may put chunks on the wire before
+\* the call returns); the message is registered provisionally as accepted and confirmed or
+\* withdrawn by the "write" event logged at the call's return (its linearization point for errors).
+TrWCall ==
+  /\ IsEv("wcall")
+  /\ msg' = (E.id :> E) @@ msg
+  /\ LET k == <<E.ep, E.sid>> IN
+       order' = IF E.len > 0 THEN (k :> Append(Get(order, k, <<>>), E.id)) @@ order ELSE order
+  /\ step' = E
+  /\ l' = l + 1
+  /\ UNCHANGED <<scen, cfg, reads, ch, hi, pkt, rcvd, skipTo, ackCum, ackGap, arw, outst, lastSack, sackEv, sn, newData, misc, viol>>
+
 TrWrite ==
   /\ IsEv("write")
   /\ msg' = (E.id :> E) @@ msg
   /\ LET k == <<E.ep, E.sid>> IN
-       order' = IF E.ok /\ E.len > 0
-                THEN (k :> Append(Get(order, k, <<>>), E.id)) @@ order
+       order' = IF ~E.ok /\ E.len > 0
+                THEN (k :> SelectSeq(Get(order, k, <<>>), LAMBDA x : x # E.id)) @@ order
                 ELSE order
   /\ viol' = viol \cup WriteViol(E)
+              \cup (IF ~E.ok /\ \E t \in DOMAIN ch[E.ep] : ch[E.ep][t].id = E.id
+                    THEN {V("C18_FailedWriteOnWire", <<E.ep, E.sid, E.id, E.err>>)} ELSE {})
   /\ step' = E
   /\ l' = l + 1
   /\ UNCHANGED <<scen, cfg, reads, ch, hi, pkt, rcvd, skipTo, ackCum, ackGap, arw, outst, lastSack, sackEv, sn, newData, misc>>
@@ -236,11 +250,19 @@ TrChunkData ==
        /\ ch' = [ch EXCEPT ![e] = (E.tsn :> rec) @@ @]
        /\ hi' = [hi EXCEPT ![e] = MaxI(@, E.tsn)]
        /\ outst' = [outst EXCEPT ![e] = IF isNew THEN @ + E.len ELSE @]
-       /\ newData' = [newData EXCEPT ![e] = IF isNew THEN Append(@, [before |-> outst[e], after |-> outst[e] + E.len, tsn |-> E.tsn]) ELSE @]
+       \* window-probe allowance: the last chunk that was sent while nothing was outstanding, for as
+       \* long as it is itself unacknowledged (RFC 4960 6.1 A: "one DATA chunk in flight regardless of rwnd")
+       /\ newData' = [newData EXCEPT ![e] = IF isNew
+                        THEN Append(@, [before |-> outst[e], after |-> outst[e] + E.len, tsn |-> E.tsn,
+                                        allow |-> IF outst[e] = 0 THEN E.len
+                                                  ELSE IF misc.probe[e] >= 0 /\ misc.probe[e] > ackCum[e] /\ misc.probe[e] \notin ackGap[e]
+                                                       THEN ch[e][misc.probe[e]].len ELSE 0])
+                        ELSE @]
+       /\ misc' = IF isNew /\ outst[e] = 0 THEN [misc EXCEPT !.probe[e] = E.tsn] ELSE misc
   /\ pkt' = [pkt EXCEPT ![E.pid].chunks = Append(@, E)]
   /\ viol' = viol \cup DataViol(E)
   /\ l' = l + 1
-  /\ UNCHANGED <<scen, cfg, msg, order, reads, rcvd, skipTo, ackCum, ackGap, arw, lastSack, sackEv, sn, step, misc>>
+  /\ UNCHANGED <<scen, cfg, msg, order, reads, rcvd, skipTo, ackCum, ackGap, arw, lastSack, sackEv, sn, step>>
 
 \* --- SACK written by endpoint e (about the peer's TSNs)
 SackViol(c) ==
@@ -289,7 +311,8 @@ TrRx ==
          live == E.ok /\ p.ck # "bad" /\ ~p.forged
          dataT == {c.tsn : c \in ChunksOfKind(p, DataKinds)}
          fwds  == {c.cum : c \in {x \in ChunksOfKind(p, {"fwd", "ifwd"}) : Wellformed(x)}}
-         sacks == {c \in ChunksOfKind(p, {"sack"}) : Wellformed(c)}
+         \* a SACK whose cumulative point is behind what was already acknowledged is stale (RFC 4960 6.2.1 D i)
+         sacks == {c \in ChunksOfKind(p, {"sack"}) : Wellformed(c) /\ c.cum >= ackCum[E.to]}
          shuts == {c \in ChunksOfKind(p, {"shutdown"}) : Wellformed(c)}
          cums  == {c.cum : c \in sacks \cup shuts}
          ncum  == IF live /\ cums # {} THEN MaxI(ackCum[to], Max(cums)) ELSE ackCum[to]
@@ -318,7 +341,7 @@ SnapViol(s) ==
       nd == newData[e]
       wnd == MinI(s.cwnd, arw[e])
       \* new user data is sent only within cwnd and the peer's advertised window; probe exception
-      badWindow == {i \in DOMAIN nd : ~(nd[i].after <= s.cwnd /\ nd[i].after <= arw[e]) /\ ~(nd[i].before = 0)}
+      badWindow == {i \in DOMAIN nd : nd[i].before # 0 /\ ~(nd[i].after <= s.cwnd /\ nd[i].after - nd[i].allow <= arw[e])}
       \* the strong completeness check: the step delivered one packet of DATA chunks only
       p  == IF step.ev = "rx" /\ step.pid \in DOMAIN pkt THEN pkt[step.pid] ELSE [kinds |-> <<>>, forged |-> TRUE]
       onlyData == step.ev = "rx" /\ step.to = e /\ ~p.forged /\ p.kinds # <<>> /\ \A i \in DOMAIN p.kinds : p.kinds[i] \in DataKinds
@@ -340,6 +363,15 @@ TrSnap ==
   /\ viol' = viol \cup SnapViol(E)
   /\ l' = l + 1
   /\ UNCHANGED <<scen, cfg, msg, order, reads, ch, hi, pkt, rcvd, skipTo, ackCum, ackGap, arw, outst, lastSack, step, misc>>
+
+\* "same": the endpoint's projection at this quiescent point equals its previous snapshot
+TrSame ==
+  /\ IsEv("same") /\ sn[E.ep] # NoSnap
+  /\ newData' = [newData EXCEPT ![E.ep] = <<>>]
+  /\ sackEv' = [sackEv EXCEPT ![E.ep] = <<>>]
+  /\ viol' = viol \cup SnapViol(sn[E.ep])
+  /\ l' = l + 1
+  /\ UNCHANGED <<scen, cfg, msg, order, reads, ch, hi, pkt, rcvd, skipTo, ackCum, ackGap, arw, outst, lastSack, sn, step, misc>>
 
 (***************************************************************************)
 (* Scenario end: print the violations                                      *)
@@ -366,8 +398,8 @@ TrPassive ==
   /\ l' = l + 1
   /\ UNCHANGED <<scen, cfg, msg, order, reads, ch, hi, pkt, rcvd, skipTo, ackCum, ackGap, arw, outst, lastSack, sackEv, sn, newData, misc, viol>>
 
-Next == TrCfg \/ TrWrite \/ TrRead \/ TrTx \/ TrForge \/ TrChunkData \/ TrChunkSack \/ TrChunkOther
-        \/ TrRx \/ TrSnap \/ TrEnd \/ TrPassive
+Next == TrCfg \/ TrWCall \/ TrWrite \/ TrRead \/ TrTx \/ TrForge \/ TrChunkData \/ TrChunkSack \/ TrChunkOther
+        \/ TrRx \/ TrSnap \/ TrSame \/ TrEnd \/ TrPassive
 
 Spec == Init /\ [][Next]_vars
 
